@@ -224,9 +224,126 @@ def refused_destination(run, seen):
                 run.spec_fail.append((sig, line, {"why": bad[1], "api results": " ".join(p[0]) if p else None}))
 
 
+def stack_lines(script_tokens, answer):
+    """an `os stk` answer -> (driver request for Model.Stack, what the implementation showed, outputs) or None
+    implementation side: per API call 't<threw>' and, where a counter query follows, the records buffered / blocks written"""
+    if answer is None or not answer.startswith("I") or " | S " not in answer:
+        return None
+    head, _, strace = answer.partition(" | S ")
+    parts = head.split(" | ")
+    api = parts[0].split()[1:]
+    outs = parts[1].split() if len(parts) > 1 else []
+    # group the data calls and the runner's notes by API call
+    groups, cur, hlen = [], None, 0
+    for e in strace.strip().strip(",").split(","):
+        if not e:
+            continue
+        if e.startswith("=H"):
+            hlen = int(e[2:])
+        elif e.startswith("@"):
+            cur = {"op": e[1:], "writes": [], "len": None}; groups.append(cur)
+        elif cur is not None and e.startswith("=L"):
+            cur["len"] = int(e[2:])
+        elif cur is not None:
+            cur["writes"].append(e.partition(":")[0][1:])          # '<size><o|f|s>'
+    toks = [t for t in script_tokens if t.split(":")[0] in ("Q", "A", "M", "W", "R", "C", "D")]
+    if len([t for t in toks if t.split(":")[0] != "D"]) != len(api):
+        return None
+    ops, impl, gi, ri, pending = ["H%d" % hlen], [], 0, 0, None
+    opened, target = [0], 0          # a rotation that throws never opens its target (descriptor outputs): the harness still lists it
+    for t in toks:
+        op = t.split(":")[0]
+        if op == "D":
+            break
+        r = api[ri]; ri += 1
+        if op == "C":
+            if pending is not None and r.startswith("c="):
+                f = r[2:].split(".")
+                impl[pending] += ":c%s:w%s" % (f[0], f[4])
+            pending = None
+            continue
+        if gi >= len(groups):
+            return None
+        g = groups[gi]; gi += 1
+        writes = ",".join(g["writes"]) or "-"
+        threw = r.startswith("E:")
+        if op in ("Q", "A", "M"):
+            ops.append("BW:%d:%s" % (g["len"], writes) if g["len"] is not None else "B")
+        elif op == "W":
+            ops.append("W:%d:%s" % (g["len"] or 0, writes))
+        else:
+            ops.append("R:%s:%d:%s" % (t.split(":")[-1], g["len"] or 0, writes))
+            target += 1
+            if not threw:
+                opened.append(target)
+        impl.append("t%d" % (1 if threw else 0)); pending = len(impl) - 1
+    return ops, impl, [outs[i] for i in opened if i < len(outs)]
+
+
+def stack_correspondence(run, quick):
+    """Model.Stack against the real exporter/encoder/descriptor writer: the same API calls, the model's flushes placed where the
+    sizes of the real write() calls say they happened, the OS answers as injected; compared per call: threw or not, records
+    buffered and block counter where the session asks for them; per output: the bytes the OS accepted"""
+    q = lambda i, n: "Q:cport=%d,qn=x%s" % (i, ("%02x" % (0x40 + i)) * n)
+    scripts = []
+    for n in ((700, 1500) if quick else (10, 700, 1500, 2100)):
+        scripts.append("BP:tps=1000,max=1000 X:fd:n %s %s C W C %s %s C W C R:fd:0 C R:fd:0 C W C R:fd:1 C %s C R:fd:0 C D" % (q(1, n), q(2, n), q(3, n), q(4, n), q(5, n)))
+        scripts.append("BP:tps=1000,max=1000 X:fd:n %s C W C R:fd:1 C %s %s C R:fd:1 C R:fd:0 C W C %s W C R:fd:1 C D" % (q(1, n), q(2, n), q(3, n), q(4, n)))
+        scripts.append("BP:tps=1000,max=2 X:fd:n %s %s C %s C R:fd:0 C W C %s %s C R:fd:1 C R:fd:0 C D" % (q(1, n), q(2, n), q(3, n), q(4, n), q(5, n)))
+    base = run_os(["os full " + sc for sc in scripts])
+    lines, metas = [], []
+    for sc, b in zip(scripts, base):
+        pb = parse(b)
+        if pb is None:
+            continue
+        lines.append("os stk 0 enospc 0 " + sc); metas.append((sc, 0, "none", 0))
+        for k in range(1, pb[2] + 1):
+            for kind in ("enospc", "short"):
+                for persist in (0, 1):
+                    lines.append("os stk %d any-%s %d %s" % (k, kind, persist, sc)); metas.append((sc, k, kind, persist))
+    answers = run_os(lines)
+    reqs, keep = [], []
+    for (sc, k, kind, persist), a in zip(metas, answers):
+        st = stack_lines(sc.split(), a)
+        if st is None:
+            run.model_fail.append((("stack", k, kind, persist), {"why": "the session's answer cannot be aligned with its API calls", "answer": (a or "")[:300]}))
+            continue
+        ops, impl, outs = st
+        reqs.append("stk " + ";".join(ops)); keep.append(((sc, k, kind, persist), impl, outs, a))
+    model = G.run_driver(reqs) if run.driver_ok and reqs else []
+    seen = set()
+    for ((sc, k, kind, persist), impl, outs, a), m in zip(keep, model):
+        run.case(("stack", sc[:60], k, kind, persist), True); run.count("Model.Stack correspondence sessions")
+        if m is None or not m.startswith("M "):
+            run.model_fail.append((("stack", k, kind, persist), {"model": m, "session": sc[:200]})); continue
+        mparts = m[2:].split(" | ")
+        mops = mparts[0].split()
+        mclosed = mparts[1].split() if len(mparts) > 1 and mparts[1] else []
+        bad = None
+        if len(mops) != len(impl):
+            bad = "number of calls"
+        else:
+            for i, (x, y) in enumerate(zip(impl, mops)):
+                if not y.startswith(x.split(":")[0]) or (":" in x and x != y):
+                    bad = "call %d: implementation %s, model %s" % (i, x, y); break
+        if bad is None:
+            # sizes of the descriptor outputs that were closed by a rotation (the last one is closed by destruction: +break)
+            sizes = [0 if o in ("-",) else len(o) // 2 for o in outs]
+            msizes = [int(c.split("/")[0][2:]) for c in mclosed]
+            if sizes[:len(msizes)] != msizes:
+                bad = "bytes accepted by the OS per closed output: implementation %s, model %s" % (sizes[:len(msizes)], msizes)
+        if bad:
+            sig = "stack:" + bad.split(":")[0]
+            if sig not in seen:
+                seen.add(sig)
+                run.model_fail.append((("stack", k, kind, persist), {"why": bad, "session": ("os stk %d any-%s %d %s" % (k, kind, persist, sc) if k else "os stk 0 enospc 0 " + sc)[:600],
+                                                                      "implementation": " ".join(impl), "model": m[:400]}))
+
+
 def check(run):
     run.lean()
     quick = run.tier == "quick"
+    stack_correspondence(run, quick)
     run.rule = ("scenarios {name,descriptor} x {none,gzip,xz} x {small,large records}; for each: every fault point k = 1..N (N = number of "
                 "write/writev calls of the fault-free run on the first output, measured) x {ENOSPC, EIO, short} x {single, persistent}; "
                 "exhaustive over k; distinct by (scenario, k, kind, persist); non-trivial = the fault fired")
